@@ -35,7 +35,10 @@ func newGen() *value.FunctionGenerator {
 // ---------------------------------------------------------------------------------------------
 // (a) parser: every way parsing can stop before the end of input
 
-var tokens = []string{"a", "1", "\"s\"", "+", "-", "(", ")", "[", "]", "{", "}", ",", ".", ":", ";", "->", "let", "if", "then", "else", "try", "catch", "=", "x"}
+// "²" is one character that the tokenizer turns into TWO tokens (^ 2); in comfort mode a number, an
+// identifier or ")" followed by "(", a number or an identifier produces an extra "*" token: the
+// tokenizer goroutine can be more than one token ahead of the parser when parsing stops.
+var tokens = []string{"a", "1", "\"s\"", "+", "-", "(", ")", "[", "]", "{", "}", ",", ".", ":", ";", "->", "let", "if", "then", "else", "try", "catch", "=", "x", "²"}
 
 func genericParser() *parser2.Parser[int] {
 	return parser2.NewParser[int]().Op("+", "-", "*").Unary("-").
@@ -75,6 +78,8 @@ func runParser(ctx *bex.Ctx) {
 		maxLen = 5
 	}
 	g := newGen()
+	gc := newGen()
+	gc.SetComfort(true)
 	gp := genericParser()
 	idents := parser2.Identifiers[int](nil).Add("a").Add("x")
 	var idx int64
@@ -84,7 +89,7 @@ func runParser(ctx *bex.Ctx) {
 		if !ctx.Mine(idx) || ctx.Expired() {
 			return
 		}
-		for _, which := range []string{"generic", "value"} {
+		for _, which := range []string{"generic", "value", "value-comfort"} {
 			ctx.Eval()
 			body := func() string {
 				if which == "generic" {
@@ -94,7 +99,11 @@ func runParser(ctx *bex.Ctx) {
 					}
 					return "ast"
 				}
-				_, _, err := g.Generate(src, "a", "x")
+				gen := g
+				if which == "value-comfort" {
+					gen = gc
+				}
+				_, _, err := gen.Generate(src, "a", "x")
 				if err != nil {
 					return "error"
 				}
@@ -151,7 +160,7 @@ func runParser(ctx *bex.Ctx) {
 			}
 		}
 	}
-	ctx.SpaceDone(fmt.Sprintf("every sequence of <= %d tokens over a %d-token alphabet, 5 longer programs cut at every token and followed by trailing tokens; generic parser and value Generate; all schedules", maxLen, len(tokens)))
+	ctx.SpaceDone(fmt.Sprintf("every sequence of <= %d tokens over a %d-token alphabet, 5 longer programs cut at every token and followed by trailing tokens; generic parser, value Generate and value Generate in comfort mode; all schedules", maxLen, len(tokens)))
 }
 
 // ---------------------------------------------------------------------------------------------
@@ -372,6 +381,9 @@ func replay(repro map[string]any) (string, bool) {
 			if repro["parser"] == "generic" {
 				_, err := gp.Parse(src, idents)
 				return fmt.Sprint(err)
+			}
+			if repro["parser"] == "value-comfort" {
+				g.SetComfort(true)
 			}
 			_, _, err := g.Generate(src, "a", "x")
 			return fmt.Sprint(err)
